@@ -225,6 +225,10 @@ def trun (cfg : TCfg) (acts : List TAct) (s : TSt) : TSt := acts.foldl (tstep cf
 structure RCfg where
   /-- marshal_one_abstract: janet_abstract_incref before the pointer is written into the message -/
   increfBeforeSend : Bool
+  /-- unmarshal LB_THREADED_ABSTRACT: "already registered in this thread's table?" is decided by the ABSENCE of the key
+      (`janet_checktype(check, JANET_NIL)`); a known object => the in-transit reference is dropped.  (A test on the entry's
+      value is wrong: entries hold `false` between mark phases.) -/
+  recvKnownDecref : Bool
   deriving Repr, DecidableEq
 
 structure RSt where
@@ -255,8 +259,9 @@ def rstep (cfg : RCfg) (s : RSt) : RAct → RSt
   | .recv t =>
     if s.transit = 0 then s
     else if t ∈ s.holds then
-      { s with transit := s.transit - 1, refcount := s.refcount - 1, reach := fun u => u == t || s.reach u,
-               useAfterFree := s.useAfterFree || s.freed }
+      -- already known: "Heap reference already accounted for, remove threaded channel reference"
+      { s with transit := s.transit - 1, refcount := if cfg.recvKnownDecref then s.refcount - 1 else s.refcount,
+               reach := fun u => u == t || s.reach u, useAfterFree := s.useAfterFree || s.freed }
     else
       { s with transit := s.transit - 1, holds := t :: s.holds, reach := fun u => u == t || s.reach u,
                useAfterFree := s.useAfterFree || s.freed }
